@@ -350,8 +350,16 @@ impl<const N: usize> PublicKey<N> {
                     }
                     int
                 })
-                .map(Felt::new)
-                .collect_vec(),
+                .collect_vec()
+                .into_iter()
+                .map(|int: i16| {
+                    if int as u32 >= Q {
+                        Err(FalconDeserializationError::BadFieldElementEncoding)
+                    } else {
+                        Ok(Felt::new(int))
+                    }
+                })
+                .collect::<Result<Vec<Felt>, _>>()?,
         );
 
         Ok(PublicKey { h })
